@@ -1248,6 +1248,10 @@ def np_isnan(interp, args, kw):
     flag = getattr(a, "nan_flag", None)
     if flag is not None:
         return NanCheck(flag)
+    if isinstance(a, SArr) and callable(getattr(a, "nan_el", None)):
+        # a harness array with a per-element "is NaN" predicate (data that may hold NaN)
+        ne = a.nan_el
+        return interp.array_from_fn(lambda j: ne(j), a.n, "bool", "isnan")
     if isinstance(a, SArr) or is_sym(a):
         # reals have no NaN
         if isinstance(a, SArr):
@@ -1325,6 +1329,26 @@ def np_diff(interp, args, kw):
     used(interp, "elementwise")
     return interp.array_from_fn(lambda j: get(j + 1) - get(j), (n - 1) if isinstance(n, int) else z3.simplify(n - 1),
                                 k, "diff")
+
+
+def np_clip(interp, args, kw):
+    """np.clip(a, lo, hi[, out=]) = minimum(maximum(a, lo), hi)."""
+    a = args[0]
+    lo = args[1] if len(args) > 1 else kw.get("a_min")
+    hi = args[2] if len(args) > 2 else kw.get("a_max")
+    out = args[3] if len(args) > 3 else kw.get("out")
+    r = a
+    if lo is not None:
+        r = np_maxmin2("max")(interp, [r, lo], {})
+    if hi is not None:
+        r = np_maxmin2("min")(interp, [r, hi], {})
+    if out is not None:
+        from . import pymat
+        if isinstance(out, pymat.SMat):
+            pymat._overwrite(interp, out, r)
+            return out
+        raise OutsideSubset("np.clip(out=) into a 1-D array")
+    return r
 
 
 def np_maxmin2(which):
@@ -1733,6 +1757,7 @@ def install(interp):
     m[np.empty] = np_zeros_like(None)
     m[np.diff] = np_diff
     m[np.maximum] = np_maxmin2("max")
+    m[np.clip] = np_clip
     m[np.minimum] = np_maxmin2("min")
     m[np.min] = np_extreme("min")
     m[np.max] = np_extreme("max")
